@@ -22,6 +22,10 @@ BuiltinNames == {Builtins[i][1] : i \in DOMAIN Builtins}
 BuiltinSize(n) == (CHOOSE i \in DOMAIN Builtins : Builtins[i][1] = n)
 IntBases == {"u8","u16","u32","u64","u128","i8","i16","i32","i64","i128"}
 
+(* named deviation (C14): TRUE = the repaired behaviour, a second declaration of a path is an *)
+(* error instead of a silent overwrite                                                        *)
+CHECKDUP == TRUE
+
 ResNone == [k |-> "none"]
 NoVftRes == [has |-> FALSE, funcs |-> <<>>, baseField |-> "", ty |-> TNone]
 
